@@ -101,3 +101,28 @@ check("C13", "fault_enumeration",
       "checks, timeout=0 never expires.",
       "the deadline closure is the library's own; only the clock it reads is virtual; shipped scorer",
       "virtual clock + ordered event trace (checks, analyses, applications, scorings, yields) with trace predicates; exhaustive expiry-point enumeration", "DESIGN.md 3/C13")
+
+check("C07", "exploration",
+      "All 24x24 hour pairs (with minute variants) x 11 joiners x 4 hour forms x 6 contexts (thorough: the full product) "
+      "against the range model (from = A, to = B, +12 h / next-day wrap, never inverted, never > 24 h); ordered and reversed "
+      "date pairs in six notations; all before/after/not-before/not-after spellings with the bound compared to what X alone "
+      "denotes. Held except the four listed beam-truncation families.",
+      _D + "; configuration E only labels beam truncation", 
+      "API call/return monitor + range reference model over the full hour-pair x joiner x context product", "DESIGN.md 3/C07")
+
+check("C20", "exploration",
+      "Three executions per case (day alone, clock alone with latent off, both together): the combined result is the day of "
+      "the first at the hour/minute of the second, for every day form (29) x clock notation (29) x both orders x {blank, at, "
+      "um}, each with 3 (quick) / 35 (thorough) value and reference-time samples. Held except the eight listed "
+      "beam-truncation families.",
+      _D + "; configuration E only labels beam truncation", 
+      "three monitored executions per case + homomorphism oracle over the full form x notation x order x connector product", "DESIGN.md 3/C20")
+
+check("C12", "exploration",
+      "Every result of seeded random call histories (incl. abandoned/closed streams and failing calls), of ALL interleavings "
+      "of two streams' first steps (hundreds of schedules per pair) and of 8-thread runs with a 1 microsecond switch "
+      "interval with/without line-level yield injection equals a reference table computed in fresh interpreters; the tables "
+      "under PYTHONHASHSEED 0/1/2/random agree; write barriers on the shared model never fired and model/rule-base digests "
+      "never changed. Overlapping call pairs and injected yields are counted; zero overlap would be inconclusive.",
+      "timeout=0; RandomScorer excluded; schedules observed are those the interpreter produced under the injected yields",
+      "history recorder + write barriers + digests vs fresh-process reference table; exhaustive two-stream interleaving; thread stress with sys.monitoring yield injection", "DESIGN.md 3/C12")
